@@ -125,18 +125,18 @@ static void print_state(FILE * f) {
     fprintf(f, "]}");
 }
 static char * state_str(void) {
-    static char buf[4096];
+    static char buf[65536];
     FILE * m = fmemopen(buf, sizeof buf, "w");
     print_state(m);
     fclose(m);
     return buf;
 }
 
-typedef struct { char kind; int code; int hasinfo; char text[24]; int tlen; int fail; } op_t;
+typedef struct { char kind; int code; int hasinfo; char text[400]; int tlen; int fail; } op_t;
 /* kinds: P push, O pop(+release), S SYST:ERR?, C clear, N count, L *CLS */
 
 static int res_code, res_has, res_cnt;
-static char res_text[300];
+static char res_text[600];
 static size_t res_tlen;
 
 static void apply(const op_t * o) {
@@ -145,7 +145,13 @@ static void apply(const op_t * o) {
     switch (o->kind) {
         case 'P':
             fail_next = o->fail;
-            if (o->hasinfo) {
+            if (o->hasinfo && o->tlen > 30) {
+                /* a long counted text (more than the 255 characters a response shows): stored and given back whole */
+                char * t = malloc((size_t) o->tlen);
+                memcpy(t, o->text, (size_t) o->tlen);
+                SCPI_ErrorPushEx(&ctx, (int16_t) o->code, t, (size_t) o->tlen);
+                __real_free(t);
+            } else if (o->hasinfo) {
                 char tmp[32];
                 memcpy(tmp, o->text, o->tlen); tmp[o->tlen] = 0;
                 SCPI_ErrorPushEx(&ctx, (int16_t) o->code, tmp, 0);
@@ -279,7 +285,7 @@ static int explore(long maxstates, const char * outpath) {
     while (head < nnodes) {
         int i;
         for (i = 0; i < nalpha; i++) {
-            char from[4096], key[256];
+            static char from[65536]; char key[256];
             long j;
             replay_to(head);
             strcpy(from, state_str());
@@ -320,7 +326,7 @@ static int walk(unsigned long seedv, long steps, const char * outpath) {
     fresh();
     for (i = 0; i < steps; i++) {
         op_t o;
-        char from[4096];
+        static char from[65536];
         unsigned r = rnd() % 100;
         memset(&o, 0, sizeof o);
         strcpy(from, state_str());
@@ -331,6 +337,11 @@ static int walk(unsigned long seedv, long steps, const char * outpath) {
                 o.hasinfo = 1; o.tlen = rnd() % 13;
                 for (k = 0; k < o.tlen; k++) o.text[k] = "ab\"; ,x"[rnd() % 7];
                 o.fail = (rnd() % 5 == 0);
+                if (rnd() % 40 == 0) {
+                    o.tlen = 250 + (int) (rnd() % 130);
+                    for (k = 0; k < o.tlen; k++) o.text[k] = (char) ('a' + (k % 26));
+                    if (rnd() & 1) o.text[rnd() % o.tlen] = '"';
+                }
             }
         } else if (r < 70) o.kind = 'O';
         else if (r < 88) o.kind = 'S';
